@@ -48,7 +48,9 @@ ByteText(m, c) == IF m = MU /\ c >= 128 THEN <<Q>> ELSE <<c>>
 Next ==
   \/ \E p \in (IF st.mode = MR THEN RawFrags ELSE Payloads) :
         Do(Op("W", p, 0), p, ValidUTF8(p))
-  \/ \E c \in ByteArgs : Do(Op("WB", <<>>, c), ByteText(st.mode, c), c < 128)
+  \* (in raw mode the caller vouches for what it writes: marker bytes fed one by one are outside the precondition)
+  \/ \E c \in ByteArgs : (st.mode # MR \/ c < 128) /\
+                         Do(Op("WB", <<>>, c), ByteText(st.mode, c), c < 128)
   \/ \E r \in RuneArgs : (st.mode # MR \/ r < 128) /\
                          Do(Op("WR", <<>>, r), EncodeRune(r), ValidRune(r))
   \/ \E m \in Modes : m # st.mode /\ Do(Op("SM", <<>>, m), <<>>, TRUE)
@@ -97,6 +99,7 @@ TRuneArgs == {97, 10, 8249, 8250, 215, 128512, 55296, -1, 1114112}
 \* or with the scanner's sentinel (a genuine U+FFFD = EF BF BD)
 QSpicy == {<<NL, 226, 128>>, StartM \o <<226, 128>>, <<97, NL, 226>>, <<194, 186>>, <<226, 130, 186>>, RuneErrorBytes}
 TSpicy == QSpicy \cup {<<97>> \o RuneErrorBytes, <<194, 185>>, <<226, 128, 187>>, EndM \o <<226>>, <<NL, NL, 226, 128>>, <<226, 128, NL>>, StartM \o <<NL>>, <<195, NL>>}
+NoSpicy == {}
 QRawFrags == {<<>>, <<97>>, StartM \o <<97>> \o EndM, <<10>>}
 TRawFrags == QRawFrags \cup {RedactedM, <<97>> \o StartM \o <<63>> \o EndM \o <<10>>, StartM \o EndM}
 =============================================================================
